@@ -704,6 +704,9 @@ static const harness_t* find_harness(const char* name) {
   return 0;
 }
 
+void rt_set_harness(const char* name) { H = find_harness(name); }
+
+#ifndef RT_NO_MAIN
 int main(int argc, char** argv) {
   if (argc < 2) {
     fprintf(stderr, "usage: runner_rt case.txt [--base-seed S] [--nsched N] [--tso 0|1|2] [--replay file --seed S] [--minimise] [--soft N] [--hard N]\n");
@@ -875,3 +878,4 @@ int main(int argc, char** argv) {
   printf("}\n");
   return have_violation ? 1 : 0;
 }
+#endif
